@@ -184,8 +184,8 @@ class Closure:
 
 class FnItem:
     """a function item / fn pointer value: the callee path text and the substitution at creation"""
-    __slots__ = ('text', 'env')
-    def __init__(self, text, env=None): self.text = text; self.env = env or {}
+    __slots__ = ('text', 'env', 'crate')
+    def __init__(self, text, env=None, crate=None): self.text = text; self.env = env or {}; self.crate = crate
     def __repr__(self): return '<fn %s>' % self.text
 
 class PyFn:
